@@ -236,6 +236,8 @@ type exec struct {
 	stuck map[int]string
 	// cloneOnly: an alarm on the forked store that a fresh replay of the same schedule did not reproduce
 	cloneOnly bool
+	// lockLevel: the steps run as threads under the lock-level scheduler; every subscriber consumes for itself
+	lockLevel bool
 }
 
 var token = cmdlib.TokenSecrets["t1"]
@@ -350,6 +352,9 @@ func (e *exec) step(a string) {
 			}
 			e.epoch++
 			e.record("restore")
+			if e.lockLevel {
+				return
+			}
 			e.pump()
 			// every subscription that existed must now be closed
 			for i, s := range e.subs {
@@ -383,6 +388,9 @@ func (e *exec) step(a string) {
 		}
 		if !e.pub.VerifDrainOne() {
 			panic("drain with empty queue")
+		}
+		if e.lockLevel {
+			return
 		}
 		e.pump()
 		if owner >= 0 && e.sc.writes[owner].acl {
@@ -420,6 +428,13 @@ func (e *exec) step(a string) {
 				s.sub = nil
 			}
 		}
+		if e.lockLevel {
+			e.pumpOne(i)
+			return
+		}
+	}
+	if e.lockLevel {
+		return
 	}
 	e.pump()
 }
@@ -427,7 +442,15 @@ func (e *exec) step(a string) {
 // pump lets every connected subscriber consume whatever is available (consumption commutes with
 // commits; its order relative to publications is what the exploration varies).
 func (e *exec) pump() {
-	for i, s := range e.subs {
+	for i := range e.subs {
+		e.pumpOne(i)
+	}
+}
+
+// pumpOne: subscriber i consumes whatever is deliverable to it now.
+func (e *exec) pumpOne(i int) {
+	s := e.subs[i]
+	{
 		for s.sub != nil {
 			evt, err, ok := s.sub.VerifNextNoBlock()
 			if !ok {
@@ -589,6 +612,8 @@ func explore(sc *scenario, onExec func(e *exec)) (execs int64) {
 }
 
 // ---- scenarios ------------------------------------------------------------------------------------------------------
+
+func newOnce() *sync.Once { return new(sync.Once) }
 
 func Run(c *ev.Ctx) {
 	quick := c.Quick()
@@ -790,6 +815,11 @@ func Run(c *ev.Ctx) {
 			}
 		}
 		scenarios = append(scenarios, extra...)
+	}
+
+	partLock(c)
+	if os.Getenv("VERIF_C11_ONLY") == "lock" {
+		return
 	}
 
 	var execs, deliveries, closes int64
